@@ -656,6 +656,30 @@ def run(ctx):
                     ck.program([sbj, prt], [f"{cast},0,{tgt}", f"{op2},2,1"], branch="cast",
                                nontrivial=sbj[0] in "PSMY", oracle=orc)
 
+    # ---- 2b. a cast creates a NEW object: the original combines afterwards exactly as before ----------------
+    n_orig = 0
+    for sbj in ["P:0:0:4", "P:-:0:4", "S:V0", "S:A", "M:V0", "Y:V0", "Y:D4"]:
+        for tgt in ["-", "V0", "V1", "V3"]:
+            for cast in ("reinterp", "translate"):
+                if cast == "translate" and tgt == "-":
+                    continue
+                for prt in ["P:0:0:4", "P:1:0:4", "M:V0", "M:V1"]:
+                    op2 = "rshift" if prt[0] == "M" else "add"
+
+                    def orc(case, out, before, after, sbj=sbj, prt=prt, op2=op2):
+                        key = (op2, sbj, prt, 0)
+                        if key not in ck.fresh_cache:
+                            f, _, _, _ = run_program(U, [sbj, prt], [f"{op2},0,1"])
+                            ck.fresh_cache[key] = f[0]
+                        fresh = ck.fresh_cache[key]
+                        if (out[1][0] == "ok") != (fresh[0] == "ok"):
+                            ctx.fail(dict(case, **{"class": "the original operand changed by reinterpret/translate"}),
+                                     f"after the cast, {op2} of the ORIGINAL with {prt}: {out[1]}",
+                                     f"as without the cast: {fresh}", where="cast-mutates-original")
+                    ck.program([sbj, prt], [f"{cast},0,{tgt}", f"{op2},0,1"], branch="cast-original", oracle=orc)
+                    n_orig += 1
+    ctx.extra["cast_original_programs"] = n_orig
+
     # ---- 3. histories ---------------------------------------------------------
     hist_ops = ["add", "sub", "mul", "dot", "rshift"]
     vocs = [0, 1, 3]                      # two vocabularies of d=4 (HRR), one of d=4 (VTB)
